@@ -45,7 +45,91 @@ package client
 //@   requires cc != nil && value != nil && cc.midHandlerContainer != nil
 //@   requires 0 <= acknowledgeTimeout && acknowledgeTimeout <= 1000000000000 && atomicLoad(value.retransmit) < 1000000
 //@   opaque-calls pure
+//@   modifies value.private.msg, value.retransmit
 //@   ensures [at-most-one] callCount(WriteMessage) <= 1
 //@   ensures [send-guard] called(WriteMessage) ==> !((value.deadline != 0 && now > value.deadline) || old(atomicLoad(value.retransmit)) >= maxRetransmit) && now > value.start + acknowledgeTimeout * (old(atomicLoad(value.retransmit)) + 1) && atomicLoad(value.retransmit) == old(atomicLoad(value.retransmit)) + 1
 //@   ensures [expired-removed] ((value.deadline != 0 && now > value.deadline) || old(atomicLoad(value.retransmit)) >= maxRetransmit) ==> notCalled(WriteMessage) && called(Delete) && called(ReleaseMessage)
 //@   ensures [not-due] !((value.deadline != 0 && now > value.deadline) || old(atomicLoad(value.retransmit)) >= maxRetransmit) && !(now > value.start + acknowledgeTimeout * (old(atomicLoad(value.retransmit)) + 1)) ==> notCalled(WriteMessage) && notCalled(Delete) && atomicLoad(value.retransmit) == old(atomicLoad(value.retransmit))
+
+// ---- C05: de-duplication of datagram requests by message ID ----------------------------------------
+//
+// The reply to a request is stored in the response cache under the REQUEST's message ID, the cache is
+// consulted under that same key before the handler is dispatched, a hit never reaches the handler and
+// is answered with the cached reply re-labelled with the duplicate's message ID; lookup, dispatch and
+// store all happen while the per-message-ID mutex of that ID is held.
+//
+// Assumed contracts (not verified here): the cache behind the MessageCache interface (pkg/cache is
+// proved under C14; marshalling under C01), the application handler (arbitrary effect on both
+// messages), the per-key mutex (udp/client/mutexmap.go), the inactivity monitor.
+//
+//@ func (MessageCache) Load(key string, msg *pool.Message) (ok bool, err error)
+//@   trusted
+//@   modifies *msg
+//
+//@ func (MessageCache) Store(key string, msg *pool.Message) (err error)
+//@   trusted
+//
+//@ func (*Conn) handle(w *responsewriter.ResponseWriter, m *pool.Message)
+//@   trusted
+//@   modifies *w.response, *m
+//
+//@ func (*Conn) GetMessageID() (m int32)
+//@   trusted
+//@   ensures 0 <= m && m <= 65535
+//
+//@ func (*MutexMap) Lock(key interface{}) (u Unlocker)
+//@   trusted
+//
+//@ func (Unlocker) Unlock()
+//@   trusted
+//
+//@ func (InactivityMonitor) Notify()
+//@   trusted
+//
+//@ func (*Conn) closeConnection()
+//@   trusted
+//
+//@ func (*Conn) getResponseFromCache(mid int32, resp *pool.Message) (ok bool, err error)
+//@   inline
+//
+//@ func (*Conn) addResponseToCache(reqMessageID int32, resp *pool.Message) (err error)
+//@   inline
+//
+//@ func isPongOrResetResponse(w *responsewriter.ResponseWriter) (b bool)
+//@   inline
+//
+//@ func sendJustAcknowledgeMessage(reqType message.Type, w *responsewriter.ResponseWriter) (b bool)
+//@   inline
+//
+//@ func (*Conn) checkResponseCache(req *pool.Message, w *responsewriter.ResponseWriter) (ok bool, err error)
+//@   requires cc != nil && req != nil && w != nil && w.response != nil && w.response != req
+//@   modifies *w.response
+//@   ensures [lookup-iff] (callCount(Load) == 1) <==> (req.msg.Type == 0 || req.msg.Type == 1)
+//@   ensures [lookup-at-most-once] callCount(Load) <= 1
+//@   ensures [lookup-key] called(Load) ==> callArg(Load, 0, 1) == itoa(req.msg.MessageID) && callArg(Load, 0, 2) == w.response
+//@   ensures [hit-iff] ok <==> (called(Load) && callRes(Load, 0, 0))
+//@   ensures [hit-reply] ok ==> err == nil && w.response.msg.MessageID == req.msg.MessageID && w.response.msg.Type == ite(req.msg.Type == 0, 2, 1)
+//@   ensures [never-stores] notCalled(Store)
+//
+//@ func (*Conn) processResponse(reqType message.Type, reqMessageID int32, w *responsewriter.ResponseWriter) (err error)
+//@   requires cc != nil && w != nil && w.response != nil
+//@   modifies w.response.msg.MessageID, w.response.msg.Type, w.response.msg.Code, w.response.isModified, w.response.msg.Token, w.response.msg.Token[0 : cap(w.response.msg.Token)]
+//@   ensures [store-at-most-once] callCount(Store) <= 1
+//@   ensures [store-key] called(Store) ==> callArg(Store, 0, 1) == itoa(reqMessageID) && callArg(Store, 0, 2) == w.response
+//@   ensures [store-con] reqType == 0 && !(old(w.response.isModified) && (old(w.response.msg.Type) == 3 || old(w.response.msg.Code) == 0)) ==> called(Store)
+//@   ensures [store-non] reqType == 1 && old(w.response.isModified) && !(old(w.response.msg.Type) == 3 || old(w.response.msg.Code) == 0) ==> called(Store)
+//@   ensures [reply-con] reqType == 0 && err == nil ==> w.response.msg.MessageID == reqMessageID && w.response.msg.Type == 2
+//@   ensures [never-looks-up] notCalled(Load)
+//
+//@ func (*Conn) handleReq(w *responsewriter.ResponseWriter, req *pool.Message)
+//@   opaque-calls pure
+//@   requires cc != nil && req != nil && w != nil && w.response != nil && w.response != req && cc.msgIDMutex != nil
+//@   modifies anything
+//@   ensures [lock-key] callCount(Lock) == 1 && payload(callArg(Lock, 0, 1)) == old(req.msg.MessageID)
+//@   ensures [unlock] callCount(Unlock) == 1 && callArg(Unlock, 0, 0) == callRes(Lock, 0, 0)
+//@   ensures [check-first] callCount(checkResponseCache) == 1 && callSeq(Lock, 0) < callSeq(checkResponseCache, 0) && callSeq(checkResponseCache, 0) < callSeq(Unlock, 0)
+//@   ensures [hit-no-handler] callRes(checkResponseCache, 0, 0) ==> notCalled(handle) && notCalled(processResponse)
+//@   ensures [error-no-handler] callRes(checkResponseCache, 0, 1) != nil ==> notCalled(handle) && notCalled(processResponse)
+//@   ensures [handler-once] callCount(handle) <= 1
+//@   ensures [handler-under-lock] called(handle) ==> callSeq(checkResponseCache, 0) < callSeq(handle, 0) && callSeq(handle, 0) < callSeq(processResponse, 0) && callSeq(processResponse, 0) < callSeq(Unlock, 0)
+//@   ensures [store-same-id] called(handle) ==> callCount(processResponse) == 1 && callArg(processResponse, 0, 2) == old(req.msg.MessageID) && callArg(processResponse, 0, 1) == old(req.msg.Type) && callArg(processResponse, 0, 3) == w
